@@ -343,11 +343,6 @@ def live_apply(m, op):
         raise AssertionError(op)
 
 
-def op_script(op):
-    """source line(s) performing `op` on a model bound to `m` (for replay scripts)"""
-    return "live_apply(m, %r)" % (op,)
-
-
 def build(spec, name, dangling="dead"):
     """a fresh real model from definitions only (no evaluation).  An object ref whose target does not exist is
     bound to a deleted handle (dangling="dead") or left out (dangling="omit")"""
@@ -396,13 +391,6 @@ def dangling_spaces(spec):
     if any(gone(r) for r in spec.refs.values()):
         return {p for p, _ in spec.walk()}
     return {p for p, _ in spec.walk() if any(gone(r) for _, (_, r) in spec.all_refs(p).items())}
-
-
-def build_script(spec, name="M"):
-    return ("import sys; sys.path.insert(0, '/verif/drivers')\n"
-            "from c07_spec import *\n"
-            "spec = Spec(refs=%r,\n            spaces=%r)\n"
-            "m = build(spec, %r)\n" % (spec.refs, spec.spaces, name))
 
 
 # ---------------------------------------------------------------------------------------------- observation
